@@ -452,11 +452,34 @@ static In gadget_vanish(Rng &rng, int np, long cols) {
     c.B.assign(n * cols, Q(0)); for (long i = 0; i < n; ++i) for (long j = 0; j < cols; ++j) c.B[i * cols + j] = j == 0 ? Q(1) : Q(i % 3 - 1);
     return c;
 }
+// a vanished aggregate with a LOW number on a rank whose surviving aggregate with a HIGHER number has a member on
+// another rank: after the renumbering that rank must be told the new number (pmis.hpp:657-694).
+//   rank 0: u (+ chain)      rank 1: i, c, m (+ chain)      rank 2: j (+ chain)
+//   i <-> c and m <-> u strongly coupled both ways, j -> i one way: rank 1 creates {i, c} = 0 and {m, u} = 1, j (higher
+//   rank) takes i and c, aggregate 0 of rank 1 vanishes, {m, u} becomes 0 and u on rank 0 has to learn it
+static In gadget_notify(Rng &rng, int np, long cols) {
+    In c; c.kind = rng.coin(1, 4) ? 1 : 0; c.vb = 1; c.bs = 1; c.cols = cols; c.eps = Q::frac(1, 4); c.over = Q(1); c.relax = Q(1); c.esr = 0;
+    long t0 = rng.range(0, 2), t1 = rng.range(0, 2), t2 = rng.range(0, 3); long n0 = 1 + t0, n1 = 3 + t1, n2 = 1 + t2, n = n0 + n1 + n2;
+    const long u = n0 - 1, i = n0, cc = n0 + 1, m = n0 + 2, j = n0 + n1;
+    std::vector<std::map<long,Q>> rows(n);
+    auto sym = [&](long a, long b2, Q w) { rows[a][b2] -= w; rows[b2][a] -= w; };
+    sym(i, cc, Q(2)); sym(m, u, Q(2)); rows[j][i] -= Q(2);
+    for (long t = 0; t + 1 < n0 - 0 && t + 1 <= u - 0 && t < u; ++t) sym(t, t + 1, Q::frac(1, 8));          // weak chain on rank 0
+    for (long t = 0; t < t1; ++t) sym(m + t + 1, m + t + 2 <= n0 + n1 - 1 ? m + t + 2 : m + t + 1, Q(1));  // strong chain behind m on rank 1
+    for (long t = 0; t + 1 < t2 + 1; ++t) sym(j + t, j + t + 1, Q::frac(1, 8));                             // weak chain on rank 2
+    for (long r = 0; r < n; ++r) { rows[r].erase(r); Q off(0); for (auto &cv : rows[r]) off += cv.second < 0 ? -cv.second : cv.second; rows[r][r] = off + Q::frac(rng.range(0, 2), 2) + (off == 0 ? Q(1) : Q(0)); }
+    std::vector<std::vector<std::pair<long,Q>>> rr(n); for (long r = 0; r < n; ++r) for (auto &cv : rows[r]) if (cv.first == r || cv.second != 0) rr[r].push_back({cv.first, cv.second});
+    c.A = from_rows(n, n, rr);
+    std::vector<long> p(np, 0); p[0] = n0; p[1] = n1; p[2] = n2; c.P.p = p; c.P.off.assign(1, 0); for (long q : p) c.P.off.push_back(c.P.off.back() + q); c.P.sum = n;
+    c.B.assign(n * cols, Q(0)); for (long r = 0; r < n; ++r) for (long k = 0; k < cols; ++k) c.B[r * cols + k] = k == 0 ? Q(1) : Q(r % 3 - 1);
+    return c;
+}
 static void generate(Rng &rng, const Opts &o, std::vector<std::string> &lines) {
     const int W = std::min(g_wsize, MAXNP); const bool th = o.thorough();
     long N = o.cases > 0 ? o.cases : (th ? 1400 : 150);
     for (long k = 0; k < N; ++k) lines.push_back(in_str(gen_case(rng, k, th, W)));
     for (long k = 0; k < (o.cases > 0 ? 4 : th ? 120 : 24); ++k) { int np = (int)rng.range(2, std::max(2, W)); if (np > W) np = W; if (np >= 2) lines.push_back(in_str(gadget_vanish(rng, np, (long)(k % 3)))); }
+    for (long k = 0; k < (o.cases > 0 ? 3 : th ? 60 : 12); ++k) if (W >= 3) lines.push_back(in_str(gadget_notify(rng, (int)rng.range(3, W), (long)(k % 3))));
     // the partitions named in the brief: 1-D Poisson, rows 5/1/1/5 on 4 ranks, plain aggregation
     if (W >= 4) for (int v = 0; v < 2; ++v) {
         In c; c.kind = 0; c.vb = 1; c.bs = 1; c.cols = v; c.eps = Q::frac(1, 4); c.over = Q(1); c.relax = Q(1); c.esr = 0;
